@@ -1,6 +1,6 @@
 (* C14 — limiter decisions for one source are independent of all other sources. *)
 From Oxy Require Import Base.Prelude Model.Bucket Model.Limiter Proofs.BucketProofs Proofs.SetProofs
-  Proofs.LimiterProofs Proofs.LimiterLocal.
+  Proofs.LimiterProofs Proofs.LimiterLocal Proofs.LimiterDyn.
 From Oxy Require Model.ConnLimit Proofs.ConnLimitProofs.
 Open Scope Z_scope.
 
@@ -13,6 +13,26 @@ Theorem C14_rate_noninterference : forall c U src start ops,
 Proof. intros c U src start ops Hf Hp. apply (rate_noninterference c U src ops); try assumption.
   repeat split; cbn; try constructor; tauto. Qed.
 Print Assumptions C14_rate_noninterference.
+
+(* The same with a rate extractor configured (ratelimit.ExtractRates): every request carries its own effective rates,
+   a source's period set may change from one request to the next (TokenBucketSet.Update deletes, updates and creates
+   buckets, the entry's TTL follows the longest period) -- the decisions of a source are still those of the history in
+   which only its own requests and the clock advances occur. *)
+Theorem C14_rate_noninterference_dyn : forall cap U src start ops,
+  vfits cap U ops ->
+  filter (of_src src) (vevents cap (init start) ops) = vevents cap (init start) (valone src ops).
+Proof. intros cap U src start ops Hf. apply (rate_noninterference_dyn cap U src ops); try assumption.
+  repeat split; cbn; try constructor; tauto. Qed.
+Print Assumptions C14_rate_noninterference_dyn.
+
+(* the op [2; sel; ..] of the harness encoding is such a request; and on histories without such ops the model the harness
+   runs (Limiter.run, full Update) is the one over consume_rates (same-period-set Update) the other theorems speak about *)
+Theorem C14_dynamic_model_ties : forall c alts s sel src n hint cap start k rs ops,
+  fst (xstep c alts s [2; sel; src; n; hint]) = vstep (capacity c) s (VReq (nth (Z.to_nat sel) alts (rates c)) src n hint) /\
+  (NoDup (map r_period (decode_rates (Z.to_nat k) rs)) -> Forall (fun r => r_period r <> 0) (decode_rates (Z.to_nat k) rs) ->
+   forallb static_op ops = true -> run (cap :: start :: k :: rs) ops = run_static (cap :: start :: k :: rs) ops).
+Proof. intros. split; [apply xstep_dyn_state|apply run_static_agrees]. Qed.
+Print Assumptions C14_dynamic_model_ties.
 
 (* Connection limiter: no capacity at all, so no condition. outs_of t = the responses to source t's own
    operations inside the interleaved history. *)
@@ -66,3 +86,12 @@ Proof. split; [|split; [|split]].
   - cbn. exact I.
   - vm_compute. reflexivity.
   - vm_compute. reflexivity. Qed.
+
+(* non-vacuity with per-request rates: capacity 2, default 1/s; source 1 asks with a 10-second rate set (TTL 101 s), then
+   with the default again (TTL 11 s: the expiry moves BACK); source 2 arrives (TTL 11 s, later than source 1's); when
+   source 3 arrives the map is full and source 1 -- now nearest to expiry -- is the one forgotten *)
+Example C14_dynamic_example :
+  run [2; 5000000000; 1; 1000000000;1;1; 1; 1; 10000000000;5;5]
+      [[2;0;1;1;-1]; [0;1;1;-1]; [1;1000000000]; [0;2;1;-1]; [0;3;1;1]]
+  = [[0;0;-1;1;4]; [0;0;-1;1;0]; []; [0;0;-1;2;0]; [0;0;1;2;0]].
+Proof. vm_compute. reflexivity. Qed.
